@@ -57,8 +57,8 @@ CLAIMED = {
             "DESIGN.md §5 C08"),
     "C09": (ENGINE_A, "exploration",
             "seeded simulation of adaptive chains with fault-injected rejected draws; window invariants checked on the strategy's counters (hook H4) after every draw, step-size search re-run seen at the Math seam",
-            "Seeded search over num_tune 3..300, early/final window fractions, early/main switch frequencies, update frequency, growth factors 1..3, Diag/LowRank x NUTS/MCLMC and histories with every mixture of accepted and rejected draws (divergences injected by the density stub, hard targets). After every draw: the estimator counts move only as the history allows; a switch happens only with a full window AND room for the next (observed) window before the final step-size window; no switch is missed when even the largest admissible next window fits; foreground-background is constant between switches (no stale draws); for the diagonal strategy every reported transformation (scales and mean) equals the estimate computed by a reference from exactly the (draw, gradient) pairs of the current foreground window (a draw from before the last two switches would show); windows are early-sized in the early phase and grow geometrically afterwards; nothing is touched in the final window; the first transformation change re-runs the step-size search and later ones do not.",
-            "Needs hook H4 (read-only counters). The rounding of the growth and the update frequency on non-switch draws are deliberately not pinned down. The symmetric statistic in the final window is covered by C07.",
+            "Seeded search over num_tune 3..300, early/final window fractions, early/main switch frequencies, update frequency, growth factors 1..3, Diag/LowRank x NUTS/MCLMC and histories with every mixture of accepted and rejected draws (divergences injected by the density stub, hard targets). After every draw: the estimator counts move only as the history allows; a switch happens only with a full window AND room for the next (observed) window before the final step-size window; no switch is missed when even the largest admissible next window fits; foreground-background is constant between switches (no stale draws); for the diagonal strategy every reported transformation (scales and mean) equals the estimate computed by a reference from exactly the (draw, gradient) pairs of the current foreground window (a draw from before the last two switches would show), and for the low-rank strategy the repository's own estimator applied (hook H5) to the reference window reproduces the reported scales and eigenvalues; windows are early-sized in the early phase and grow geometrically afterwards; nothing is touched in the final window; the first transformation change re-runs the step-size search and later ones do not.",
+            "Needs hooks H4 (read-only counters) and H5 (low-rank estimate for an explicit window). The rounding of the growth and the update frequency on non-switch draws are deliberately not pinned down. The symmetric statistic in the final window is covered by C07.",
             "DESIGN.md §5 C09, Appendix B"),
     "C10": (ENGINE_B, "exploration",
             "real Sampler as shuttle tasks under the harness's seeded scheduler; bitwise trace comparison against the system's own uninterrupted run",
